@@ -197,6 +197,13 @@ def c08(tier, seed):
         qv = validate_traces("VirtQueueTrace", "VirtQueueTrace.cfg", out + ".q.ndjson", {"scenarios": []})
         qv["scenarios"] = len(idx["scenarios"])
         c.add_validation(qv, "use-" + fam + "/queues")
+        if fam == "net":
+            # "the network header has its 12-byte modern form exactly when VERSION_1 was negotiated"
+            # - every pairing of transport generation and offered VERSION_1 bit, frames decoded by
+            # the reference device with the header length the negotiated features imply (Net.tla)
+            nv = validate_traces("NetTrace", "NetTrace.cfg", out, idx, max_events=600)
+            nv["scenarios"] = 0
+            c.add_validation(nv, "use-net/frames")
         if not c.violations:
             for f in (out, out + ".q.ndjson"):
                 if os.path.exists(f):
